@@ -48,6 +48,7 @@ def mk_graph(n, edges, rng=None, style=None):
     """edges: list of (i, j, k) with i != j over ids 0..n-1 (ids are positions in sorted-name order)."""
     if style is None:
         style = rng.randrange(len(NAME_STYLES)) if rng else 0
+    if len(NAME_STYLES[style](n)) < n: style = 3 if style % 2 else 0      # the decorated styles have ten names; larger graphs use v<i> or the descending numbers
     names = sorted(NAME_STYLES[style](n))
     m = {}
     for i, j, k in edges:
@@ -428,3 +429,13 @@ def arith_divisor(G, D, rng, graph=None):
         d = -build_impl_divisor(G, [-x for x in D], graph=graph, rng=rng)
     assert div_to_list(G, d) == list(D), "harness: arithmetic did not produce the intended divisor (C12 reports that)"
     return d
+
+
+def midsize_multigraph(rng, lo=7, hi=9):
+    """a random tree on lo..hi vertices plus a few extra edges, every edge with multiplicity 1..3 (rules that switch behaviour once 'most of the graph' has
+    burnt / fired need more vertices than the small families have, and multi-edges to matter)"""
+    n = rng.randint(lo, hi); e = {}
+    for v in range(1, n): e[(rng.randrange(v), v)] = rng.choice([1, 1, 2, 3])
+    for _ in range(rng.randint(1, 4)):
+        a, b = sorted(rng.sample(range(n), 2)); e[(a, b)] = rng.choice([1, 2, 2, 3])
+    return mk_graph(n, [(a, b, k) for (a, b), k in sorted(e.items())], rng)
